@@ -87,6 +87,13 @@ func (eng) Cases(seed uint64, tier string) []core.CaseDesc {
 	if tier == "thorough" {
 		nr = 120000
 	}
+	nv := 300
+	if tier == "thorough" {
+		nv = 60000
+	}
+	for i := 0; i < nv; i++ {
+		cs = append(cs, mk(fmt.Sprintf("veto/%05d", i), "veto", seed*4000037+uint64(i), nil))
+	}
 	for i := 0; i < nr; i++ {
 		cs = append(cs, mk(fmt.Sprintf("rand/%05d", i), "rand", seed*1000003+uint64(i), nil))
 	}
@@ -155,6 +162,10 @@ type witness struct {
 }
 
 // judge checks all new transitions recorded since from.
+// onlyInvariants restricts the judgement to R1 and R2 (the veto cases; one
+// case runs per process at a time).
+var onlyInvariants bool
+
 func judge(res *core.CaseResult, m *am.Machine, spec gen.SchemaSpec, tr *rec.Tracer,
 	from int, path []gen.Op,
 ) {
@@ -173,6 +184,12 @@ func judge(res *core.CaseResult, m *am.Machine, spec gen.SchemaSpec, tr *rec.Tra
 		vs := oracle.CheckRelations(schema, tx.Type, tx.Called, tx.StatesBef,
 			tx.ActiveEnd, tx.IsAuto)
 		for _, v := range vs {
+			if onlyInvariants && v.Clause != "R1" && v.Clause != "R2" {
+				// with vetoing handlers the Add / justification clauses have
+				// excuses this oracle does not model; Require closure and
+				// exclusion hold for every active set
+				continue
+			}
 			sig := "C02/" + v.Clause
 			sp := secondPass[tx.TxId]
 			switch v.Clause {
@@ -298,6 +315,41 @@ func (eng) Run(c core.CaseDesc, tier string) *core.CaseResult {
 		if c.ID == "rand/00000" {
 			res.Sample = map[string]any{"schema": spec.String(), "history": fmt.Sprint(hist[:6]) + "..."}
 		}
+	case "veto":
+		// handlers that veto (a static PRNG table over the negotiation handler
+		// names), Auto states: partially accepted auto transitions re-resolve
+		// their target; whatever is applied has to be closed under Require and
+		// free of Remove pairs
+		r := gen.NewRand(c.Seed, 3)
+		spec := gen.RandSchema(r, gen.SchemaOpts{MinStates: 3, MaxStates: 6,
+			PRequire: r.Float64() * 0.35, PAdd: r.Float64() * 0.2, PRemove: r.Float64() * 0.25,
+			PAuto: 0.2 + r.Float64()*0.4, PMulti: r.Float64() * 0.2, AcyclicRequire: true})
+		m, tr := newMach(spec)
+		defer m.Dispose()
+		names := rec.AllHandlerNames(gen.Sorted(spec.Names))
+		vt := map[string]bool{}
+		for _, n := range names {
+			if rec.IsNegotiation(n) && r.IntN(5) == 0 {
+				vt[n] = true
+			}
+		}
+		hl := &rec.HLog{}
+		_, _ = rec.BindMaps(m, hl, 0, names, func(hc *rec.HCall, e *am.Event) bool {
+			// (only in auto transitions: that is where a veto rejects one state
+			// and the rest goes on)
+			if tx := e.Transition(); tx != nil && tx.IsAuto() {
+				return !vt[hc.Name]
+			}
+			return true
+		})
+		hist := gen.RandHistory(r, spec.Names, []string{"add", "remove", "set", "add", "toggle"}, 25)
+		onlyInvariants = true
+		for i, op := range hist {
+			from := tr.Len()
+			rec.Apply(m, op)
+			judge(res, m, spec, tr, from, hist[:i+1])
+		}
+		onlyInvariants = false
 	case "directed":
 		var p directedP
 		_ = json.Unmarshal(c.P, &p)
